@@ -85,7 +85,7 @@ func runC10(r *Run) {
 	// fragment, 2 a data frame with part of its payload, 3 a ping with part of its
 	// payload, 4 writing the pong for a ping (the peer does not read), 5 waiting
 	// for the frame lock to write that pong (a Write is blocked in the transport)
-	rconc := t.Weighted(1, 1, 1, 2, 2, 2, 2, 1)
+	rconc := t.Weighted(1, 1, 1, 2, 2, 2, 2, 1, 2)
 
 	sig := fmt.Sprintf("flavour=%v,terminal=%d", pingFlavour, terminal)
 	r.Class = fmt.Sprintf("%s/cli%v/d%v/n%d", sig, rc.Opts.LibClient, rc.Neg.Deflate, nOps/4)
@@ -345,6 +345,21 @@ func runC10(r *Run) {
 					peer.Inject(peer.Encode(wsref.Frame{Fin: false, Opcode: wsref.OpBinary, Payload: []byte("first fragment")},
 						wsref.Frame{Fin: true, Opcode: wsref.OpPong, Payload: []byte("nobody asked")},
 						wsref.Frame{Fin: true, Opcode: wsref.OpPing, Payload: []byte("ping between fragments")}))
+				case 8:
+					// the read waits in the transport (for a first byte, or inside a frame)
+					// while the write side is stalled: another goroutine's message sits
+					// in a full pipe that the peer does not drain. Ending the read's
+					// context must not wait for anything that has to be written first.
+					r.S.ParkE("a.prog.drain", func() bool { return rc.Lib.Out().Buffered() == 0 }, nil)
+					paused = true
+					rc.Lib.Out().Cap = 512
+					rc.Lib.Out().HardCap = true
+					r.S.Go("bgwriter", func() { c.Write(bg, websocket.MessageBinary, Payload{Kind: 2, Len: 40000, Seed: 4}.Bytes()) })
+					r.S.ParkE("a.prog.waitwriter", func() bool { return rc.Lib.InWriteLocked() }, nil)
+					if int(termDelay/time.Millisecond)%2 == 1 {
+						b := peer.Encode(wsref.Frame{Fin: true, Opcode: wsref.OpBinary, Payload: Payload{Kind: 2, Len: 300, Seed: 8}.Bytes()})
+						peer.Inject(b[:len(b)-100])
+					}
 				case 4, 5:
 					r.S.ParkE("a.prog.drain", func() bool { return rc.Lib.Out().Buffered() == 0 }, nil)
 					paused = true
